@@ -378,6 +378,10 @@ def hyp_cases(draw, tier):
     return case
 
 
+# (what round 8 added to the case domain; part of the evidence text)
+RULE_ROUND8 = ' One generated forest in 20 (60 in the thorough tier) is a BIG one (gen.big_specs: a child list of 11..300 nodes, that many clones of one data object, more than 256 nodes), with node references aimed at notable positions of the long child lists. A third of the string cases hold instances of a str subclass whose str() text differs from the value: the dict form carries str(data), the round trip reproduces that text.'
+RULE = RULE + RULE_ROUND8
+
 PARTS = [
     Part("dict-form", run, strategy=lambda tier: hyp_cases(tier), n={"quick": 2000, "thorough": 200000}),
 ]
